@@ -18,7 +18,7 @@ EXPLANATION = (
     "matrix is built from. C14.c: the clip itself selects rows only by comparing the Date column with both window bounds "
     "(never by index label / position). C14.d (write-once summary): the store of a season's summary row is reachable only through the True edge of a "
     "`harvest_flag is False` test (edge removal on the CFG) - otherwise days simulated after the harvest, which exist only when the "
-    "run is extended, rewrite a completed season's row. NOT decided: that extending the end date leaves completed seasons of thermal-time crops "
+    "run is extended, rewrite a completed season's row. C14.e: same rule as C08.e - an aggregate over all seasons of the window makes completed seasons depend on the end date (known finding F19). NOT decided: that extending the end date leaves completed seasons of thermal-time crops "
     "unchanged (depends on cumulative sums; SwitchGDD averages over all seasons by design).")
 
 
@@ -130,6 +130,8 @@ def run(chk, prog, tier):
                 chk.violation("C14.b", init.key, construct, "weather outside the simulation window can reach this use", loc=init.loc(n))
     chk.floor("C14.b", nuse, 3, "uses of self.weather_df in _initialize")
     window_selection(chk, prog, "C14.c")
+    from ._siblings import season_aggregate_calendar
+    season_aggregate_calendar(chk, prog, "C14.e")
     # ---- C14.d write-once summary rows
     from .c06 import summary_written_once
     from ..common import STEP_FN
